@@ -1,9 +1,12 @@
 package c20
 
 import (
+	"crypto/sha256"
 	"errors"
 	"fmt"
 	"io"
+	"os"
+	"os/exec"
 	"strings"
 	"testing"
 	"time"
@@ -20,8 +23,9 @@ var errStream = errors.New("stream broke")
 type failingReader struct {
 	data   []byte
 	off    int
-	chunk  int
-	failAt int
+	chunk   int
+	failAt  int
+	errWith bool // the error arrives together with the last bytes, the way a connection is reset
 }
 
 func (r *failingReader) Read(p []byte) (int, error) {
@@ -37,17 +41,23 @@ func (r *failingReader) Read(p []byte) (int, error) {
 	}
 	copy(p, r.data[r.off:r.off+n])
 	r.off += n
+	if r.errWith && r.off >= r.failAt {
+		return n, errStream
+	}
 	return n, nil
 }
 
 // streamDigest: what a StreamLexer of the default size shows of a stream that breaks: the lines, and at which line Err()
 // stops being nil
-func streamDigest(data []byte, chunk, failAt int) string {
-	z := buffer.NewStreamLexer(&failingReader{data: data, chunk: chunk, failAt: failAt})
+func streamDigest(data []byte, chunk, failAt int, errWith bool) string {
+	z := buffer.NewStreamLexer(&failingReader{data: data, chunk: chunk, failAt: failAt, errWith: errWith})
 	var sb strings.Builder
-	lines := 0
+	lines, firstErr := 0, -1
 	for steps := 0; steps < 2*len(data)+10; steps++ {
 		c := z.Peek(0)
+		if firstErr < 0 && z.Err() != nil {
+			firstErr = steps // the first position at which a consumer that looks at Err() after every Peek sees the error
+		}
 		if c == 0 && z.Err() != nil {
 			break
 		}
@@ -60,23 +70,43 @@ func streamDigest(data []byte, chunk, failAt int) string {
 			z.Free(n)
 		}
 	}
-	fmt.Fprintf(&sb, "end %d %q %v", lines, z.Shift(), z.Err())
+	fmt.Fprintf(&sb, "end %d %q %v, error first seen at byte %d", lines, z.Shift(), z.Err(), firstErr)
 	return sb.String()
+}
+
+func streamData(nlines int) []byte {
+	var sb strings.Builder
+	for i := 0; i < nlines; i++ {
+		fmt.Fprintf(&sb, "line %d of the stream\n", i)
+	}
+	return []byte(sb.String())
+}
+
+// TestChildStream is the body of the fresh process of TestProp_StreamHistory
+func TestChildStream(t *testing.T) {
+	spec := os.Getenv("VERIF_C20_STREAM")
+	if spec == "" {
+		t.Skip("child-process helper")
+	}
+	var nlines, chunk, failAt int
+	var errWith bool
+	if _, err := fmt.Sscanf(spec, "%d %d %d %t", &nlines, &chunk, &failAt, &errWith); err != nil {
+		t.Fatalf("bad spec %q: %v", spec, err)
+	}
+	fmt.Printf("STREAM %x\n", sha256.Sum256([]byte(streamDigest(streamData(nlines), chunk, failAt, errWith))))
 }
 
 // TestProp_StreamHistory: what a new StreamLexer shows of a stream does not depend on the streams that other lexers of the
 // process have seen (tokens that made their buffers grow)
 func TestProp_StreamHistory(t *testing.T) {
-	ev.Describe("streamhistory", "a stream of 20-400 short lines that breaks (a non-EOF error) at a drawn offset, read in chunks of 16-4096 bytes or as much as fits the buffer handed over, through buffer.NewStreamLexer, digested (line count, token lengths, the line at which Err() stops being nil) before and after 1-3 other lexers of the process have read streams with tokens of 3-60 KB; oracle: the two digests are equal; non-trivial = every case")
+	ev.Describe("streamhistory", "a stream of 300-3000 short lines (6-70 KB) that breaks (a non-EOF error) at a drawn offset, read in chunks of 16-4096 bytes or as much as fits the buffer handed over, through buffer.NewStreamLexer, digested (line count, token lengths, the line at which Err() stops being nil) before and after 1-3 other lexers of the process have read streams with tokens of 3-60 KB; oracle: the two digests are equal, and equal to the digest that a fresh process computes for the same stream (whenever the error comes with the last bytes of a read that fills the buffer, and a tenth of the other cases); non-trivial = every case")
 	ev.Check(t, 60, func(t *rapid.T) {
-		var sb strings.Builder
-		for i, n := 0, rapid.IntRange(20, 400).Draw(t, "lines"); i < n; i++ {
-			fmt.Fprintf(&sb, "line %d of the stream\n", i)
-		}
-		data := []byte(sb.String())
-		chunk := rapid.SampledFrom([]int{16, 100, 512, 4096, 1 << 30, 1 << 30}).Draw(t, "chunk") // (1<<30: as much as the buffer it is handed takes)
+		nlines := rapid.IntRange(300, 3000).Draw(t, "lines")
+		data := streamData(nlines)
+		chunk := rapid.SampledFrom([]int{100, 4096, 1 << 30, 1 << 30, 1 << 30}).Draw(t, "chunk") // (1<<30: as much as the buffer it is handed takes)
 		failAt := rapid.IntRange(1, len(data)).Draw(t, "failAt")
-		before := streamDigest(data, chunk, failAt)
+		errWith := rapid.Bool().Draw(t, "errWith")
+		before := streamDigest(data, chunk, failAt, errWith)
 		for k := rapid.IntRange(1, 3).Draw(t, "others"); k > 0; k-- {
 			big := []byte(strings.Repeat("x", rapid.SampledFrom([]int{3000, 5000, 20000, 60000}).Draw(t, "token")) + "\nrest\n")
 			z := buffer.NewStreamLexerSize(&failingReader{data: big, chunk: 4096, failAt: len(big)}, rapid.SampledFrom([]int{0, 64, 4096}).Draw(t, "othersize"))
@@ -85,8 +115,26 @@ func TestProp_StreamHistory(t *testing.T) {
 			}
 			z.Shift()
 		}
-		if after := streamDigest(data, chunk, failAt); after != before {
+		after := streamDigest(data, chunk, failAt, errWith)
+		if after != before {
 			t.Fatalf("a stream of %d bytes that breaks at %d, read in chunks of %d\nbefore other lexers read long tokens: %.300s\nafterwards:                           %.300s", len(data), failAt, chunk, before, after)
+		}
+		if rapid.IntRange(0, 9).Draw(t, "fresh") == 0 || errWith && chunk == 1<<30 {
+			// and it is what a process that has lexed nothing else shows of the same stream
+			cmd := exec.Command(os.Args[0], "-test.run", "^TestChildStream$", "-test.v")
+			cmd.Env = append(os.Environ(), fmt.Sprintf("VERIF_C20_STREAM=%d %d %d %v", nlines, chunk, failAt, errWith), "VERIF_EV_OUT=")
+			out, err := cmd.CombinedOutput()
+			if err != nil {
+				t.Fatalf("VERIF-INFRA child process failed: %v\n%.2000s", err, out)
+			}
+			i := strings.Index(string(out), "STREAM ")
+			if i < 0 {
+				t.Fatalf("VERIF-INFRA child printed no digest\n%.2000s", out)
+			}
+			fresh := strings.SplitN(string(out)[i+7:], "\n", 2)[0]
+			if sum := fmt.Sprintf("%x", sha256.Sum256([]byte(after))); sum != fresh {
+				t.Fatalf("a stream of %d bytes that breaks at %d (error with the last bytes: %v), read in chunks of %d: a process that has lexed nothing else gets another result than this one, which has (digest %s, here %s: %.300s)", len(data), failAt, errWith, chunk, fresh, sum, after)
+			}
 		}
 		ev.Case("streamhistory", fmt.Sprintf("len=%d chunk=%d failAt=%d", len(data), chunk, failAt), true, fmt.Sprintf("chunk=%d", chunk))
 	})
